@@ -86,21 +86,24 @@ def r18_1(ctx) -> None:
             for st in fn_nodes(fn):
                 if isinstance(st, (ast.Assign, ast.AnnAssign)) and isinstance(st.value, ast.Constant) and isinstance(st.value.value, (bytes, str)):
                     t = st.targets[0] if isinstance(st, ast.Assign) else st.target
-                    if not isinstance(t, ast.Name) or t.id != "cek":
+                    if not isinstance(t, ast.Name):
+                        continue
+                    cekv = t.id
+                    if not any(isinstance(s_.node, ast.Call) and s_.attr in T.CRYPTO_OPS and any(isinstance(a_, ast.Name) and a_.id == cekv for a_ in s_.node.args) for s_ in eng.cg.calls_in(fn)):
                         continue
                     cfg = cfg or cfg_of(fn)
                     I = cfg.node_of(st)
                     others = [cfg.node_of(x) for x in fn_nodes(fn) if isinstance(x, (ast.Assign, ast.AnnAssign)) and x is not st
-                              and any(isinstance(tt, ast.Name) and tt.id == "cek" for tt in (x.targets if isinstance(x, ast.Assign) else [x.target]))]
+                              and any(isinstance(tt, ast.Name) and tt.id == cekv for tt in (x.targets if isinstance(x, ast.Assign) else [x.target]))]
                     others = [o for o in others if o is not None]
                     for s in eng.cg.calls_in(fn):
-                        if isinstance(s.node, ast.Call) and s.attr in T.CRYPTO_OPS and any(isinstance(a, ast.Name) and a.id == "cek" for a in s.node.args):
+                        if isinstance(s.node, ast.Call) and s.attr in T.CRYPTO_OPS and any(isinstance(a, ast.Name) and a.id == cekv for a in s.node.args):
                             U = cfg.node_of(s.node)
                             m += 1
                             # on paths that passed no other assignment the variable still holds the falsy initialiser:
                             # the truthy edge of a test on the bare variable is infeasible there
-                            def ef(a, b, lab):
-                                return not (a.kind == "test" and isinstance(a.ast, ast.Name) and a.ast.id == "cek" and lab == "true")
+                            def ef(a, b, lab, _v=cekv):
+                                return not (a.kind == "test" and isinstance(a.ast, ast.Name) and a.ast.id == _v and lab == "true")
                             ok = I is not None and U is not None and cfg.must_pass(I, U, others, edge_filter=ef)
                             ctx.check(ok, "R18.1", fn, s.node, f"{fn.short} :: {norm(s.node)[:50]}", "a key-management call can see the constant CEK initialiser",
                                       "a generated / agreed CEK is assigned on every path from the initialiser")
